@@ -295,13 +295,22 @@ fn env_batch_leg(p: &dyn Property, thorough: bool, seed: u64, m: &mut Merged) ->
 /// event of the baton scheduler, and it reports data races.  A failing seed is an
 /// exactly replayable schedule (-Zmiri-seed).  If Miri is not available the leg
 /// is skipped and says so.
-fn miri_leg(thorough: bool, _seed: u64, m: &mut Merged) -> Vec<Value> {
+fn miri_leg(pid: &str, thorough: bool, _seed: u64, m: &mut Merged) -> Vec<Value> {
     if std::env::var("VERIF_NO_MIRI").is_ok() {
         return vec![json!({"leg": "miri", "status": "disabled by VERIF_NO_MIRI"})];
     }
     let dir = format!("{}/miri", std::env::var("MOMSIM_BUILD_ROOT").unwrap_or(format!("{}/sim/build", verif_root())));
-    let plan: Vec<(u64, u64)> = if thorough {
-        vec![(0, 48), (1, 48), (2, 96), (3, 48), (4, 48), (5, 96)]
+    let plan: Vec<(u64, u64)> = if pid == "C16" {
+        // cases >= 200: concurrent callers of decompose_for_tropical on the same and on
+        // other matrices under DIFFERENT tolerances; verdicts must equal the sequential ones
+        if thorough {
+            vec![(200, 96), (201, 96), (202, 96), (203, 96)]
+        } else {
+            vec![(200, 12)]
+        }
+    } else if thorough {
+        // cases >= 100: the same through samples of two samplers
+        vec![(0, 48), (1, 48), (2, 96), (3, 48), (4, 48), (5, 96), (101, 64), (103, 64)]
     } else {
         vec![(0, 8), (2, 16)]
     };
@@ -354,7 +363,13 @@ fn miri_leg(thorough: bool, _seed: u64, m: &mut Merged) -> Vec<Value> {
                     } else {
                         err.lines().find(|l| l.contains("MIRI-LEG MISMATCH")).unwrap_or("caller results differ").to_string()
                     };
-                    let class = if race { "data-race-between-concurrent-callers" } else { "concurrent-callers-differ-under-miri-schedule" };
+                    let class = if race {
+                        "data-race-between-concurrent-callers"
+                    } else if pid == "C16" {
+                        "stability-verdict-depends-on-concurrent-callers"
+                    } else {
+                        "concurrent-callers-differ-under-miri-schedule"
+                    };
                     *m.found_per_class.entry(class.into()).or_insert(0) += 1;
                     m.found_total += 1;
                     m.found.push((
@@ -362,7 +377,7 @@ fn miri_leg(thorough: bool, _seed: u64, m: &mut Merged) -> Vec<Value> {
                         fs.unwrap_or(0),
                         Found {
                             class: class.into(),
-                            key: format!("C17:miri:case={}", case),
+                            key: format!("{}:miri:case={}", pid, case),
                             detail: json!({"case": case, "failing_miri_seed": fs, "what": what.chars().take(300).collect::<String>()}),
                             case: json!({"kind": "miri", "case": case, "miri_seed": fs, "nseeds": nseeds}),
                         },
@@ -531,10 +546,13 @@ pub fn check(p: &dyn Property, thorough: bool, meta: Meta) -> i32 {
     let mut m = merge(outs);
     let mut legs = cross_process_leg(p, thorough, seed, total, &mut m);
     if p.id() == "C17" {
-        legs.extend(miri_leg(thorough, seed, &mut m));
+        legs.extend(miri_leg("C17", thorough, seed, &mut m));
         legs.extend(env_leg(&mut m));
     } else {
         legs.extend(env_batch_leg(p, thorough, seed, &mut m));
+        if p.id() == "C16" {
+            legs.extend(miri_leg("C16", thorough, seed, &mut m));
+        }
     }
     if let Ok(path) = std::env::var("VERIF_DUMP_FOUND") {
         let _ = write_json(&path, &m.found);
